@@ -490,7 +490,14 @@ def evaluate(ctx, case):
         ctx.count("alignment-object-reused-after-a-decoy-run")
     caller0 = (snapshot(start), snapshot(end))
     ali, init, rec, err = run_alignment(start, end, case)
-    caller1 = (snapshot(start), snapshot(end))
+    try:
+        caller1 = (snapshot(start), snapshot(end))
+    except Exception as e:   # noqa: BLE001
+        # the caller's own molecules cannot even be read any more (e.g. topology labels rewritten under them)
+        ctx.case(case, nontrivial=False)
+        ctx.oracle_ok(1)
+        ctx.oracle_fail(f"caller-molecules-unusable-after-alignment:{type(e).__name__}", case, {"error": repr(e)[:300]})
+        return
     s0, e0 = init
     ns, ne = s0["n"], e0["n"]
     small_is_start = ns < ne
